@@ -19,16 +19,18 @@ def main():
     if "--from" in a:
         wt = a[a.index("--from") + 1]
         os.makedirs(d, exist_ok=True)
+        tag = a[a.index("--tag") + 1] if "--tag" in a else ""      # a second set for the same property: --tag s
         for f in sorted(glob.glob(f"{wt}/SEED/refactor_*.diff")):
-            shutil.copy(f, d)
+            shutil.copy(f, os.path.join(d, os.path.basename(f).replace("refactor_", f"refactor_{tag}")))
         if os.path.exists(f"{wt}/SEED/refactors.md"):
-            shutil.copy(f"{wt}/SEED/refactors.md", d)
+            shutil.copy(f"{wt}/SEED/refactors.md", os.path.join(d, f"refactors{('_' + tag) if tag else ''}.md"))
     props = [f"C{i:02d}" for i in range(1, 21)] if "--all-props" in a else [pid]
     if sh("git -C /repo status --porcelain --untracked-files=no").stdout.strip():
         print("refusing: /repo has uncommitted changes")
         return 2
     res = {}
-    for f in sorted(glob.glob(f"{d}/refactor_*.diff")):
+    only = a[a.index("--only") + 1] if "--only" in a else ""
+    for f in sorted(glob.glob(f"{d}/refactor_{only}*.diff")):
         k = os.path.basename(f)
         r = sh(f"git -C /repo apply {f}")
         if r.returncode != 0:
